@@ -469,3 +469,28 @@ func TestFindingF22CloseAndDeleteWhileExpiryRuns(t *testing.T) {
 		t.Fatal("deadlock: CloseAndDelete and the expiry timer callback wait for each other's lock")
 	}
 }
+
+// F23 [C07] A macro-expansion path that names only the xattr ("_sync" instead of "_sync.cas") made WriteWithXattrs panic
+// inside its transaction (slice bounds out of range in upsertSubdocValue); the transaction was never ended, so every
+// later write to the bucket blocked for ever. "None of it" has to be an error, not a panic that wedges the store.
+func TestFindingF23MacroPathWithoutProperty(t *testing.T) {
+	_, c := findingBucket(t)
+	opts := &sgbucket.MutateInOptions{MacroExpansion: []sgbucket.MacroExpansionSpec{{Path: "_sync", Type: sgbucket.MacroCas}}}
+	var panicked any
+	var err error
+	func() {
+		defer func() { panicked = recover() }()
+		_, err = c.WriteWithXattrs(context.Background(), "k", 0, 0, []byte(`{"v":1}`), map[string][]byte{"_sync": []byte(`{"a":1}`)}, nil, opts)
+	}()
+	require.Nil(t, panicked, "a malformed macro path must be refused, not panic")
+	require.Error(t, err)
+	require.False(t, findingReadRow(t, c, "k").present, "nothing may have been written")
+	done := make(chan error, 1)
+	go func() { _, e := c.AddRaw("other", 0, []byte(`{"x":1}`)); done <- e }()
+	select {
+	case e := <-done:
+		require.NoError(t, e)
+	case <-time.After(3 * time.Second):
+		t.Fatal("a later write hangs: the failed call left its transaction open")
+	}
+}
